@@ -67,6 +67,9 @@ def run(chk):
     failed, log = chk.prove("GE.Thm.C08Ws", THM_WS)
     for t in failed:
         chk.violation("proof", f"obligation {t} no longer checks", theorem=t, log=log[-3000:])
+    failed, log = chk.prove("GE.Thm.C17Bal", ["GE.Css.outputs_balanced", "GE.Css.go_balanced"])
+    for t in failed:
+        chk.violation("proof", f"obligation {t} no longer checks", theorem=t, log=log[-3000:])
     failed, log = chk.prove("GE.Thm.C08Sheet", ["GE.Css.sheet_marks", "GE.Css.rules_marks", "GE.Css.atLoop_marks", "GE.Css.qualLoop_goM"])
     for t in failed:
         chk.violation("proof", f"obligation {t} no longer checks", theorem=t, log=log[-3000:])
